@@ -111,6 +111,47 @@ def check(chk: Check) -> None:
         chk.bad(R1, cons, where, det)
     if not glob:
         chk.ok(R1, 'module-level state', 'smartquery/*.py', 'no function rebinds or mutates a module-level object; no mutated mutable default')
+    # memoisation caches are module-level state too.  A cache is transparent only if equal keys always mean equal results;
+    # functools.lru_cache / cache compare keys with == and hash, under which 1, 1.0 and 1E+0 (or 20000 and 20000.00) are the
+    # same key although their texts differ.  A memoised function whose result is built from the *text* of an argument
+    # therefore returns what an earlier call with an equal, differently written number left in the cache.
+    for q_, fi_ in sorted(F.functions.items()):
+        if '.ply' in fi_.module.name or not isinstance(fi_.node, ast.FunctionDef):
+            continue
+        memo = [d for d in fi_.node.decorator_list
+                if (isinstance(d, ast.Call) and norm(d.func).rsplit('.', 1)[-1] in ('lru_cache', 'cache'))
+                or (not isinstance(d, ast.Call) and norm(d).rsplit('.', 1)[-1] in ('lru_cache', 'cache'))]
+        if not memo:
+            continue
+        params = {('param', a.arg) for a in fi_.node.args.args + fi_.node.args.kwonlyargs}
+        textual = []
+
+        def scan(t):
+            t = freeze(t)
+            if isinstance(t, tuple) and t:
+                if t[0] == 'call' and t[2] in (('ref', 'builtin', 'str'), ('ref', 'builtin', 'repr'), ('ref', 'builtin', 'format')) \
+                        and t[3] and t[3][0] in params:
+                    textual.append(show(t))
+                if t[0] == 'fstr' and any(x in params for x in t[1:]):
+                    textual.append(show(t))
+                for x in t:
+                    scan(x)
+        for p in SymExec(F, FuncInfo(q_ + '.<undecorated>', fi_.module, ast.FunctionDef(
+                name=fi_.node.name, args=fi_.node.args, body=fi_.node.body, decorator_list=[], returns=None, type_comment=None,
+                lineno=fi_.node.lineno, col_offset=0, end_lineno=getattr(fi_.node, 'end_lineno', fi_.node.lineno), end_col_offset=0), cls=fi_.cls)).run():
+            if p.normal:
+                scan(p.outcome[1])
+            for e in p.events:
+                if e.kind == 'call':
+                    scan(tuple(freeze(e.args)))
+                    scan(freeze(e.func))
+                if e.kind in ('store_sub', 'store_attr'):
+                    scan(freeze(e.value))
+        chk.require(not textual, R1, '%s :: memoised (%s)' % (q_, norm(memo[0])), fi_.where,
+                    'the cache is keyed by == / hash, but the result depends on the text of an argument (%s): equal numbers written '
+                    'differently (1 / 1.0, 20000 / 20000.00) share one entry, so a call returns what an earlier call left behind'
+                    % ', '.join(sorted(set(textual))[:2]) if textual else
+                    'memoised function of its arguments; no result depends on how an argument is spelled')
     # process-wide state that lives outside the package: the thread's decimal context (precision, rounding, traps) is
     # shared by every later call on every parser
     from . import numeric as N
